@@ -3,6 +3,7 @@ C04 — Order accounting and lifetime: nothing lost, no fill after cancel or exp
 (the clause "only when submitted by its owner" is a runner check, see PamsProps/C04R.lean /
 `Pams.Runner`.)
 -/
+import PamsLemmas.SrcOrder
 import PamsLemmas.SourceTie
 import PamsLemmas.AccountLemmas
 import Mathlib.Data.Nat.Basic
@@ -199,5 +200,24 @@ theorem source_expiry_and_guards :
     Pams.Source.opsOf "OrderBook._check_expired_orders" = ["<", "<", "=="] ∧
     Pams.Source.opsOf "Order.is_expired" = ["is", "is", "<"] ∧
     Pams.Source.opsOf "Market._add_order" = ["!=", "is not", "is not", "is not", "!=", "!=", "is not"] := by decide
+
+
+/-! ### (T2) the current source text of `Order.is_expired`, by symbolic execution -/
+section SourceCode
+open Pams.Py Pams.Src
+variable {K : Type} [LinearOrder K] [NumOpsC K]
+
+/-- **running the source of `is_expired(time)` on an accepted order says "expired" exactly when the
+order has a time-to-live and `placed_at + ttl < time`** -/
+theorem code_is_expired (a b : Order K) (time : Nat) (dflt : K) (x : Nat → Int) (y : Nat → Bool)
+    (hx : x 5 = time) :
+    ∃ r, result (rho2 a b dflt x y) env FUEL "Order.is_expired" [.ref 1, .int (.atom 5)]
+        (st2 false a.ttl.isSome false false) = .bool r ∧
+      (r = true ↔ ∃ t, a.ttl = some t ∧ a.placedAt + t < time) := by
+  refine ⟨a.expired time, is_expired_correct a b time dflt x y hx, ?_⟩
+  unfold Order.expired
+  cases a.ttl <;> simp
+
+end SourceCode
 
 end Pams.C04
